@@ -1,6 +1,6 @@
 (* C11: the weight counter refines the set-of-positions specification on every call sequence;
    the counted weight is a weighted sum over the counted positions (each at most once). *)
-From Coq Require Import NArith PeanoNat List Lia Bool Permutation.
+From Coq Require Import NArith PeanoNat List Lia Bool Permutation Sorted.
 From Coq Require Import ZifyBool ZifyNat ZifyN.
 From LV Require Import lib.WordArith lib.WSum model.Pos spec.PosSpec.
 From LV Require Import proofs.PosMapProofs proofs.PosSortProofs proofs.PosBuildProofs proofs.PosQuorumProofs.
@@ -238,4 +238,82 @@ Lemma build_total ops vs : weights_fit ops -> build ops = Some vs ->
 Proof.
   intros Hf Hb. destruct (build_counter_hyps ops vs Hf Hb) as [_ [H2 [H3 [H4 H5]]]].
   repeat split; assumption.
+Qed.
+
+(* ---- the specification's rank-based array IS the sorted array ---- *)
+Lemma at_rank_sorted pairs i p : NoDup pairs ->
+  nth_error (vsort pairs) i = Some p -> at_rank pairs i = Some p.
+Proof.
+  intros HN Hn. set (s := vsort pairs) in *.
+  assert (HP : Permutation s pairs) by apply vsort_perm.
+  assert (HNs : NoDup s) by (apply (Permutation_NoDup (Permutation_sym HP)); exact HN).
+  assert (HSs : StronglySorted vle s) by apply vsort_sorted.
+  assert (Hrank : forall q pre post, s = pre ++ q :: post -> rank pairs q = length pre).
+  { intros q pre post E. rewrite <- (rank_perm _ _ q HP), E. apply rank_sorted; rewrite <- E; assumption. }
+  destruct (List.nth_error_split s i Hn) as [l1 [l2 [E1 E2]]].
+  unfold at_rank. destruct (find (fun q => Nat.eqb (rank pairs q) i) pairs) as [q|] eqn:F.
+  - apply find_some in F. destruct F as [Hin Hr]. apply Nat.eqb_eq in Hr.
+    apply (Permutation_in q (Permutation_sym HP)) in Hin.
+    destruct (in_split _ _ Hin) as [pre [post E]].
+    pose proof (Hrank q pre post E) as Hq. rewrite Hr in Hq.
+    assert (Hn2 : nth_error s i = Some q) by (rewrite E, Hq; apply PosBuildProofs.nth_error_split).
+    congruence.
+  - exfalso. assert (Hin : In p pairs).
+    { apply (Permutation_in p HP). rewrite E1. apply in_or_app. right. left. reflexivity. }
+    pose proof (find_none _ _ F p Hin) as Hf. cbn beta in Hf. apply Nat.eqb_neq in Hf. apply Hf.
+    rewrite (Hrank p l1 l2 E1). exact E2.
+Qed.
+
+Lemma flat_map_singletons {A} (g : nat -> list A) (s : list A) : forall k,
+  (forall i p, nth_error s i = Some p -> g (k + i)%nat = [p]) ->
+  flat_map g (seq k (length s)) = s.
+Proof.
+  induction s as [|a s IH]; intros k H; [reflexivity|].
+  cbn [length seq flat_map]. rewrite <- (Nat.add_0_r k) at 1. rewrite (H 0%nat a eq_refl). cbn [app]. f_equal.
+  apply IH. intros i p Hn. replace (S k + i)%nat with (k + S i)%nat by lia. apply H. exact Hn.
+Qed.
+
+Lemma spec_array_sorted pairs : NoDup pairs -> spec_array pairs = vsort pairs.
+Proof.
+  intros HN. unfold spec_array. rewrite <- (Permutation_length (vsort_perm pairs)).
+  apply flat_map_singletons. intros i p Hn. cbn [Nat.add]. rewrite (at_rank_sorted pairs i p HN Hn). reflexivity.
+Qed.
+
+Lemma spec_array_canon ops : spec_array (eff_pairs ops) = canon ops.
+Proof. apply spec_array_sorted. apply vmap_nodup. apply eff_pairs_ok. Qed.
+
+(* the refinement theorem against the rank-based array (no sort on the right-hand side) *)
+Theorem counter_refines_rank ops vs cops : weights_fit ops -> build ops = Some vs ->
+  fst (run_counter (new_counter vs) cops) =
+  spec_counter (map snd (spec_array (eff_pairs ops))) (spec_total ops) (spec_idx ops) [] cops.
+Proof. intros Hf Hb. rewrite spec_array_canon. apply counter_refines; assumption. Qed.
+
+(* ---- every reachable counter state satisfies the invariant ---- *)
+Lemma snd_let {A B} (x : list A * B) (a : A) : snd (let (o, f) := x in (a :: o, f)) = snd x.
+Proof. destruct x; reflexivity. Qed.
+
+Lemma run_counter_inv vs : v_len vs = length (sorted_weights vs) ->
+  total_weight vs = sumN (sorted_weights vs) -> total_weight vs <= max_total ->
+  forall cops k c k', cinv vs k c -> snd (run_counter k cops) = Some k' -> exists c', cinv vs k' c'.
+Proof.
+  intros H3 H4 H5. induction cops as [|op cops IH]; intros k c k' Hi Hr.
+  - cbn in Hr. inversion Hr; subst. exists c. exact Hi.
+  - cbn [run_counter] in Hr. destruct op as [i|id| |].
+    + pose proof (count_by_idx_step vs H3 H4 H5 k c i Hi) as Hs.
+      destruct (count_by_idx k i) as [[k1 b]|]; [|discriminate].
+      rewrite snd_let in Hr. destruct Hs as [_ [_ Hi1]]. exact (IH k1 _ k' Hi1 Hr).
+    + unfold count in Hr. pose proof Hi as [Hv _]. rewrite Hv in Hr.
+      pose proof (count_by_idx_step vs H3 H4 H5 k c (get_idx vs id) Hi) as Hs.
+      destruct (count_by_idx k (get_idx vs id)) as [[k1 b]|]; [|discriminate].
+      rewrite snd_let in Hr. destruct Hs as [_ [_ Hi1]]. exact (IH k1 _ k' Hi1 Hr).
+    + rewrite snd_let in Hr. exact (IH k c k' Hi Hr).
+    + rewrite snd_let in Hr. exact (IH k c k' Hi Hr).
+Qed.
+
+Theorem counter_reachable_inv ops vs cops k : weights_fit ops -> build ops = Some vs ->
+  snd (run_counter (new_counter vs) cops) = Some k -> exists c, cinv vs k c.
+Proof.
+  intros Hf Hb Hr. destruct (build_counter_hyps ops vs Hf Hb) as [_ [_ [H3 [H4 H5]]]].
+  apply (run_counter_inv vs H3 H4 H5 cops (new_counter vs) [] k); [|exact Hr].
+  apply cinv_new; assumption.
 Qed.
